@@ -116,6 +116,22 @@ theorem C03_deg_eval (env : Nat → ℝ) (o : DegOp) (a : Expr ℝ) :
 theorem C03_deg_arg (o : DegOp) (x : ℝ) : Gen.degArg o x = x / 180 * Real.pi := by
   cases o <;> simp [Gen.degArg]
 
+/-- **C03 (degree variants).** `sind(x)` differentiates as sin(x·π/180): its derivative with
+    respect to the measurement is cos(x/180·π)·(π/180). -/
+theorem C03_sind (env : Nat → ℝ) (k : Nat) :
+    HasDerivAt (fun t => Real.sin (t / 180 * Real.pi))
+      (diff env k (Expr.deg .sind (.var k))) (env k) := by
+  have h : InDom env (Expr.deg .sind (.var k) : Expr ℝ) := by
+    simp [Expr.deg, InDom, dom1, dom2, degOuter, eval]
+  have := C03_diff_correct env k _ h
+  simpa [Expr.deg, eval, Gen.op1, Gen.op2, degOuter] using this
+
+theorem C03_sind_value (env : Nat → ℝ) (k : Nat) :
+    diff env k (Expr.deg .sind (.var k) : Expr ℝ)
+      = Real.cos (env k / 180 * Real.pi) * (Real.pi / 180) := by
+  simp [Expr.deg, diff, eval, Gen.d1, Gen.d2, Gen.op2, degOuter]
+  left; ring
+
 /-- non-vacuity: the docstring formula sqrt(c)*d − b/exp(a) at (a,b,c,d) = (5,4,6.3,7.2)
     satisfies the hypotheses of `C03_diff_correct`. -/
 example : InDom (fun i => [5, 4, 6.3, 7.2].getD i 0)
